@@ -239,6 +239,8 @@ theorem C07_code_facts :
     -- `Commit` / `Rollback` of the transaction wrapper report every failure; a store halts ONLY on a real mismatch (a
     -- deposit-count gap / an announced root or leaf count that differs) — never on a transient read or write error
     Gen.SyncFacts.errToNil_dbTx = [] ∧
+    -- no failure is assigned to one variable while another one is tested (`if commitErr := tx.Commit(); err != nil`)
+    Gen.SyncFacts.errVarMismatch = [] ∧
     Gen.SyncFacts.txBody_Commit = "{ if err := s.SQLTxer.Commit(); err != nil { return err } for _, cb := range s.commitCallbacks { cb() } return nil }" ∧
     Gen.SyncFacts.txBody_Rollback = "{ if err := s.SQLTxer.Rollback(); err != nil { return err } for _, cb := range s.rollbackCallbacks { cb() } return nil }" ∧
     Gen.SyncFacts.haltConds_bridge = ["errors.Is(err, tree.ErrInvalidIndex)"] ∧
